@@ -348,3 +348,30 @@ def _c11_extra(tier, seed, native_run):
 
 
 EXTRA_TIERS['C11'] = _c11_extra
+
+
+def _c21_extra(tier, seed, native_run):
+    out = {'violations': [], 'errors': []}
+    r = _run_bounded('c21_scipy.py', [tier], timeout=6000)
+    if 'error' in r:
+        out['errors'].append('bounded scipy-driver tier could not run: ' + r['error'])
+        return out
+    out['bounded_scipy_driver'] = {
+        'note': 'BOUNDED stand-in (not counted in obligations): real scipy optimizers driven by the real ScipyOptimizeDriver on strictly convex QPs; '
+                'oracle from the statement: success => every constrained element within its bounds, model left at the returned design, objective = true optimum (brute-force active-set enumeration)',
+        'bound': 'optimizers {SLSQP, COBYLA, trust-constr} x 9 bound patterns (scalar / array with infinite entries in different positions / equals / two-sided) x indices {all, [0,2], [1]} '
+                 'x constraint scaling {none, scaler, ref/ref0} x design-variable scaling {none, scaler, ref/ref0} x linear flag (%s)' % ('every 11th combination' if tier == 'quick' else 'all combinations'),
+        'evaluations': r['evaluations'], 'distinct_nontrivial': r['distinct_nontrivial'], 'exhaustive': tier != 'quick',
+        'successes_checked': r['successes'], 'driver_raised_not_a_success_report': r.get('driver_raised'), 'driver_raised_examples': r.get('driver_raised_examples'),
+        'failures': r['n_failures'], 'samples': r['samples']}
+    for f in r['failures'][:3]:
+        out['violations'].append(dict(f, what='scipy driver: ' + f['kind'], witness_id='c21-%s' % json_key(f)))
+    return out
+
+
+EXTRA_TIERS['C21'] = _c21_extra
+GAPS['C21'] = ['scipy.optimize itself (assumed: success is reported only when the functions/bounds it was given are satisfied within its tolerance, and for strictly convex problems it then returns the optimum): the success => feasible / optimal statement is decided end-to-end only in the BOUNDED tier',
+               'the surrounding bookkeeping of ScipyOptimizeDriver.run (design-variable bounds, _con_idx layout across several constraints, result unpacking, final model update): bounded tier only',
+               '_objfunc body (that it runs the model at x and refreshes _con_cache/_con_cache_x): assumed contract',
+               '_congradfunc (sign of new-style constraint jacobians: an upper-only NonlinearConstraint gets a negated jacobian today; the optimizer then FAILS rather than reporting success, so it is outside this property and not repaired)',
+               'differential_evolution / basinhopping / dual_annealing / shgo branches; pyOptSparse driver']
